@@ -14,7 +14,8 @@ Context {T : Type}.
 Definition enc_ok (e : encoding) : bool :=
   match e with
   | EncRaw => true
-  | EncZlib rs (InflOk n) => (0 <=? rs) && (rs <? maxBlobSize) && (n =? rs)
+  | EncZlib rs (InflOk n) | EncZlib rs (InflTrailing n) =>
+      (0 <=? rs) && (rs <? maxBlobSize) && (n =? rs)   (* extra bytes after the stream are ignored *)
   | _ => false
   end.
 
@@ -96,7 +97,8 @@ Definition enc_bad (e : encoding) : bool :=
   | EncRaw => false
   | EncNone => true
   | EncZlib rs InflErr => true
-  | EncZlib rs (InflOk n) => (rs <? 0) || (rs >=? maxBlobSize) || negb (n =? rs)
+  | EncZlib rs (InflOk n) | EncZlib rs (InflTrailing n) =>
+      (rs <? 0) || (rs >=? maxBlobSize) || negb (n =? rs)
   end.
 
 (* the header segment is really there and parses *)
